@@ -123,7 +123,7 @@ bool allAsleep(const std::vector<int>& workerTids) {
   return true;
 }
 
-bool waitAllParked(dispenso::ThreadPool& pool, const std::vector<int>& workerTids, double guardSeconds) {
+bool waitAllParked(dispenso::ThreadPool& pool, const std::vector<int>& workerTids, double guardSeconds, bool sleepFlags) {
   const int N = static_cast<int>(workerTids.size());
   if (N <= 0) return true;
   double t0 = vrt::nowSeconds();
@@ -133,7 +133,7 @@ bool waitAllParked(dispenso::ThreadPool& pool, const std::vector<int>& workerTid
     vrt::FutexStats fs = vrt::futexStats();
     // counters first, then the kernel's view: a worker that a previous wake already made runnable
     // but that has not run yet still counts as "in wait" for the interposer; /proc shows it as R
-    bool c = fs.inTimedWaitNow == N && pool.verifNumSleeping() == N && allAsleep(workerTids);
+    bool c = fs.inTimedWaitNow == N && (!sleepFlags || pool.verifNumSleeping() == N) && allAsleep(workerTids);
     if (c) {
       vrt::FutexStats fs2 = vrt::futexStats();
       c = fs2.waits == fs.waits && fs2.waitExits == fs.waitExits && fs2.inTimedWaitNow == N;
@@ -151,28 +151,28 @@ bool waitAllParked(dispenso::ThreadPool& pool, const std::vector<int>& workerTid
   return false;
 }
 
-bool waitFlagOrStranded(std::atomic<int>& flag, dispenso::ThreadPool& pool, const std::vector<int>& workerTids, double guardSeconds) {
+int waitFlagOrStranded(std::atomic<int>& flag, dispenso::ThreadPool& pool, const std::vector<int>& workerTids, double guardSeconds, bool sleepFlags) {
   const int N = static_cast<int>(workerTids.size());
   double t0 = vrt::nowSeconds(), nextSample = t0 + 0.05;
   int samples = 0;
   uint64_t lastExits = ~0ull;
   while (!flag.load(std::memory_order_relaxed)) {
     double now = vrt::nowSeconds();
-    if (now - t0 > guardSeconds) return false;
+    if (now - t0 > guardSeconds) return -1;
     if (now >= nextSample) {
       nextSample = now + 0.1;
       vrt::FutexStats fs = vrt::futexStats();
       bool asleep = allAsleep(workerTids);
       if (!asleep) vrt::progress();
-      bool c = asleep && fs.inTimedWaitNow == N && pool.verifNumSleeping() == N;
+      bool c = asleep && fs.inTimedWaitNow == N && (!sleepFlags || pool.verifNumSleeping() == N);
       if (c && (samples == 0 || fs.waitExits == lastExits)) ++samples;
       else samples = c ? 1 : 0;
       lastExits = fs.waitExits;
-      if (samples >= 3 && !flag.load(std::memory_order_relaxed)) return false;
+      if (samples >= 3 && !flag.load(std::memory_order_relaxed)) return 0;
     }
     vrt::sleepUs(50);
   }
-  return true;
+  return 1;
 }
 
 J poolJson(dispenso::ThreadPool& pool) {
